@@ -44,3 +44,32 @@ Theorem C08_source_clone_default :
   lookup "Clone::clone" gen_delegations = Some (DMap VSelf "Clone::clone") /\
   lookup "Default::default" gen_delegations = Some (DGenerate "T::default").
 Proof. rewrite !tie_deleg_of. repeat split. Qed.
+
+(* ---- tier T3 (coq/gen/GenPipe.v, theories/Pipe.v, theories/PipeTie.v): the regenerated bodies of
+        map / inverted_zip / fold / generate, executed statement by statement, call the caller's
+        function exactly once per index, in ascending order, on the elements at that index, and
+        slot i of the result is what call i returned ---- *)
+From GA Require Import Pipe PipeTie.
+From GAGen Require Import GenPipe.
+Import Coq.Lists.List.
+
+Theorem C08_source_map_in_order : forall f g a so nd,
+  let '(o, m, t, e, c) := run_from_iter [a] so f g None (pipe_of gen_map nd) (length a) in
+  o = Ok (produced f 0 (map (fun x => [x]) a)) /\ c = map (fun x => [x]) a.
+Proof. exact src_map_in_order. Qed.
+
+Theorem C08_source_zip_in_order : forall f g a b so nd, length a = length b ->
+  nd_eval nd (NdOr (NdArg 0) (NdArg 1)) = true ->
+  let '(o, m, t, e, c) := run_from_iter [b; a] so f g None (pipe_of gen_inverted_zip nd) (length a) in
+  o = Ok (produced f 0 (zrows a b)) /\ c = zrows a b.
+Proof. exact src_zip_in_order. Qed.
+
+Theorem C08_source_fold_in_order : forall f g a so nd init,
+  let '(o, m, t, c) := run_fold [a] so f g None (pipe_of gen_fold nd) (length a) init in
+  o = FoldOk (fold_acc g 0 init a) /\ List.concat c = a.
+Proof. exact src_fold_in_order. Qed.
+
+Theorem C08_source_generate : forall f g so nd N,
+  flat5 (run_for_each [] so f g None (pipe_of gen_generate nd) N) = generate_ N f None /\
+  flat5 (run_for_each [] so f g None (pipe_of gen_boxed_generate nd) N) = generate_ N f None.
+Proof. exact (fun f g => src_generate_spec f g None). Qed.
